@@ -329,18 +329,36 @@ impl Hasher for RecordingHasher {
 
 pub struct Machine {
   pub regs: Vec<Option<Val>>,
+  /// registers shared (read-only) between the threads of a concurrent
+  /// program; a thread's own registers shadow them
+  pub shared: Option<std::sync::Arc<Vec<Option<Val>>>>,
 }
 
 impl Machine {
   pub fn new() -> Self {
     Self {
       regs: vec![None; 16],
+      shared: None,
+    }
+  }
+
+  pub fn with_shared(shared: std::sync::Arc<Vec<Option<Val>>>) -> Self {
+    Self {
+      regs: vec![None; 16],
+      shared: Some(shared),
     }
   }
 
   fn reg(&self, step: &Value, key: &str) -> &Val {
     let r = step[key].as_u64().expect("register index") as usize;
-    self.regs[r].as_ref().expect("empty register")
+    if let Some(v) = self.regs[r].as_ref() {
+      return v;
+    }
+    self
+      .shared
+      .as_ref()
+      .and_then(|s| s[r].as_ref())
+      .expect("empty register")
   }
 
   fn run(&mut self, step: &Value) -> Value {
